@@ -35,6 +35,17 @@ pub fn decompress(
         compressed
     };
 
+    // `decompressed_size` comes from the patch header. One input byte produces at
+    // most 128 output bytes (a zero-run byte of 0x7F), so a larger size cannot be
+    // described by this stream: reject it instead of allocating it.
+    if decompressed_size > data.len().saturating_mul(128) {
+        return Err(Error::compression(format!(
+            "RLE decompressed size {} exceeds what {} input bytes can produce",
+            decompressed_size,
+            data.len()
+        )));
+    }
+
     // Pre-fill with zeros
     let mut decompressed = vec![0u8; decompressed_size];
 
